@@ -261,7 +261,42 @@ func (vc *VC) callUncontracted(st *State, x *ast.CallExpr, ci *calleeInfo, sig *
 	vc.uncontracted[ci.key] = true
 	vc.havocAllHeaps(st)
 	vc.havocGhostVars(st)
+	vc.havocSliceArgs(st, x)
 	return vc.freshResults(st, sig, "r_"+ci.fn.Name())
+}
+
+// havocSliceArgs: a callee without a contract may write through any slice it is handed. Slices are values in this
+// model, so the local variable the argument is (a sub-slice of) gets unknown contents of the same length.
+func (vc *VC) havocSliceArgs(st *State, x *ast.CallExpr) {
+	for _, a := range x.Args {
+		e := ast.Unparen(a)
+		for {
+			if se, ok := e.(*ast.SliceExpr); ok {
+				e = ast.Unparen(se.X)
+				continue
+			}
+			break
+		}
+		id, ok := e.(*ast.Ident)
+		if !ok {
+			continue
+		}
+		v, ok := vc.info.Uses[id].(*types.Var)
+		if !ok {
+			continue
+		}
+		if _, isSlice := v.Type().Underlying().(*types.Slice); !isSlice {
+			continue
+		}
+		cur, ok := st.vars[v]
+		if !ok {
+			continue
+		}
+		nv := vc.fresh(v.Name()+"_w", cur.Sort)
+		vc.typeInvariant(st, nv)
+		vc.assume(st, sEq(vc.sliceLen(nv), vc.sliceLen(cur)))
+		st.vars[v] = nv
+	}
 }
 
 func (vc *VC) callFuncValue(st *State, x *ast.CallExpr, ci *calleeInfo, sig *types.Signature, args []Term) []Term {
@@ -286,6 +321,7 @@ func (vc *VC) callFuncValue(st *State, x *ast.CallExpr, ci *calleeInfo, sig *typ
 	vc.uncontracted["<funcvalue> "+name] = true
 	vc.havocAllHeaps(st)
 	vc.havocGhostVars(st)
+	vc.havocSliceArgs(st, x)
 	return vc.freshResults(st, sig, "r_"+smtName(name))
 }
 
@@ -396,6 +432,10 @@ func (vc *VC) callByContract(st *State, x *ast.CallExpr, fc *FuncContract, ci *c
 	results = vc.freshResults(st, sig, "r_"+ci.fn.Name())
 	if fc.FreshResult && len(results) > 0 {
 		vc.freshResult[results[0].S] = true
+		if results[0].Sort != nil && results[0].Sort.Kind == KRef {
+			// a freshly allocated object: allocated by the callee (nil allowed: contracts say when it is non-nil)
+			vc.facts = append(vc.facts, "(or (= "+results[0].S+" 0) (and (> "+results[0].S+" "+a+") (<= "+results[0].S+" "+na.S+")))")
+		}
 	}
 	ctx.cur = st
 	ctx.old = old
